@@ -25,9 +25,9 @@ func init() {
 		},
 		N: func(t string) int {
 			if t == "thorough" {
-				return 400000
+				return 2000000
 			}
-			return 12000
+			return 100000
 		},
 		Batch: 4000,
 		Init:  sec.SelfTest,
